@@ -91,12 +91,15 @@ def long_line(rng, n):
 
 
 def gen_log(rng, long_ok=True):
+    if rng.random() < 0.08:
+        # a boundary size / shape class (builders below); long_ok false = step lane: nothing above 16 KiB
+        return gen_boundary_log(rng, small=not long_ok)
     n = rng.choice([0, 1, 2, 3, 5, 8, 13, 20])
     lines = [gen_line(rng) for _ in range(n)]
     if rng.random() < 0.5:   # leading trace block
         lines = [b'+ ' + rng.choice(WORDS + KW) for _ in range(rng.randint(1, 3))] + lines
     if long_ok and rng.random() < 0.03:   # line length is unbounded: cross the 1 KiB (peek scratch) and 64 KiB marks
-        lines.insert(rng.randint(0, len(lines)), long_line(rng, rng.choice([1023, 1024, 1025, 5000, 70000])))
+        lines.insert(rng.randint(0, len(lines)), long_line(rng, rng.choice([254, 255, 256, 1023, 1024, 1025, 4095, 4096, 4097, 5000, 8191, 8192, 8193, 65535, 65536, 70000])))
     sep = b'\r\n' if rng.random() < 0.08 else b'\n'
     data = sep.join(lines)
     if lines and rng.random() < 0.8:
@@ -107,6 +110,8 @@ def gen_log(rng, long_ok=True):
 def gen_case(rng):
     fl = rng.randint(1, 15)
     nfiles = rng.choice([1, 1, 1, 2, 3])
+    if rng.random() < 0.01:
+        nfiles = rng.choice(COUNTS[3:])          # 15 ... 257 files on one command line
     usage = rng.random() < 0.04
     if usage:
         # the usage path: no outcome selected, or no file (the exit status 1 is also "nothing found")
@@ -208,16 +213,376 @@ def gen_late_case(rng, big=False):
             'late': rng.choice([0.1, 0.2, 0.3]), 'log': log.hex()}
 
 
-def run_driver(path, lines, timeout=900):
+# ---------------------------------------------------------------------------------------------------------------------
+# Boundary SIZE / SHAPE classes.  A class is a deterministic LOG builder bl_<kind>(params) -> bytes; the generators draw
+# the parameters with a small probability (gen_boundary_log) and corpus/C13/b13_*.json holds descriptors
+# {"boundary": kind, "params": {...}, "flags": n} - a file may hold a LIST of them - which expand_descriptor turns into
+# cases of the cmd and lib lanes (and of the step lane with "step": true), so a 64 KiB line costs one line of JSON.
+# Which classes a log belongs to is decided from its BYTES (log_classes) for every evaluated case, generated or stored,
+# and printed into the input distribution as "class: ...".
+#
+# The sizes are those at which regress-log.c / libks/buffer.c change behaviour or a fixed buffer would cut: 1 KiB (initial
+# size of the line buffer of buffer_getline and of the scratch block of regress_log_peek), 4 KiB (a stdio / fgets block),
+# 8 KiB (initial size of buffer_read, which then grows by halves: 8, 16, 32, 64 KiB), 64 KiB, 1 MiB (scratch block and
+# output buffer of the command: huge_cases).
+#
+# CAPS (measured on the extracted model, driver `rl`, one question): the LENGTH of a line is linear (64 KiB 0.1 s,
+# 256 KiB 0.4 s, 1 MiB needs `ulimit -s unlimited`); the NUMBER of lines of one block is quadratic (the scratch block is
+# appended by copying: 1024 lines 0.06 s, 4096 lines 2 s, 16384 lines 72 s) and so is the number of extracted blocks (the
+# output is appended by copying: 1024 blocks 0.5 s, 4096 blocks 21 s).  Counts are therefore capped at 257 in the
+# generator, 1024 / 1025 in a few corpus cases, and nothing beyond.
+KWCLASS = [(b'FAILED', 'F'), (b'SKIPPED', 'S'), (b'DISABLED', 'S'), (b'EXPECTED_FAIL', 'X'), (b'UNEXPECTED_PASS', 'P')]
+KWPAIRS = [(a, b) for a, ca in KWCLASS for b, cb in KWCLASS if ca != cb]          # 18 ordered pairs of different classes
+SZ_LINE = [0, 1, 254, 255, 256, 1022, 1023, 1024, 1025, 2047, 2048, 4095, 4096, 4097, 8191, 8192, 8193, 16383, 16384, 16385,
+           65535, 65536, 65537]
+SZ_OFF = [1024, 4096, 8192, 12288, 16384, 32768, 65536]
+COUNTS = [0, 1, 2, 15, 16, 17, 31, 32, 33, 63, 64, 65, 255, 256, 257]
+BANDS = [(0, 0), (1, 1), (2, 2), (15, 17), (31, 33), (63, 65), (254, 257), (1022, 1025), (2047, 2049), (4095, 4097), (8191, 8193),
+         (12287, 12289), (16383, 16385), (32767, 32769), (65535, 65537)]
+SHAPES = ['empty', 'one_newline', 'one_byte', 'one_plus', 'only_markers', 'only_trace', 'only_blank', 'crlf', 'crlf_no_final',
+          'nul_before_kw', 'nul_after_kw', 'nul_in_marker', 'nul_first', 'kw_file_start', 'kw_file_end', 'kw_whole_file',
+          'kw_whole_line', 'kw_case', 'kw_affix', 'kw_split_newline', 'kw_split_nul', 'kw_in_marker', 'kw_in_leading_trace',
+          'kw_in_later_trace', 'marker_last_no_newline', 'hit_first_line', 'xfail_failed_overlap']
+
+
+def band(n):
+    for lo, hi in BANDS:
+        if lo <= n <= hi:
+            return str(lo) if lo == hi else '%d..%d' % (lo, hi)
+    return None
+
+
+def fillb(n, salt=0):
+    """n ordinary bytes, no keyword, no '=', no '+', period 37 (a block moved by a power of two is noticed)"""
+    a = b'abcdefghijklmnopqrstuvwxyz0123456789_'
+    a = a[salt % 37:] + a[:salt % 37]
+    return (a * (n // 37 + 1))[:n]
+
+
+def lines_upto(n, linestart, width=64):
+    """exactly n bytes of ordinary lines of `width` bytes (newline included); linestart: the n bytes END in a newline
+    (what follows starts a line)"""
+    if n <= 0:
+        return b''
+    out = (fillb(width - 1) + b'\n') * (n // width)
+    r = n % width
+    if r:
+        out += (fillb(r - 1, 7) + b'\n') if linestart else fillb(r, 7)
+    elif not linestart and out:
+        out = out[:-1] + b'z'          # n is a multiple of the width and the token must NOT start a line: join the last two lines
+    return out
+
+
+def bl_linelen(p):
+    """a line of n bytes (without newline) holding a keyword at its start / middle / very end, as an ordinary line, as a
+    test marker `==== ... ====` of n bytes, or as a trace line; before it a marker and a line, after it one more hit"""
+    n, kw, pos, wrap = p['n'], p.get('kw', 'FAILED').encode(), p.get('pos', 'end'), p.get('wrap', 'plain')
+    body = fillb(n, 3)
+    if wrap == 'marker' and n >= 10:
+        body = b'==== ' + fillb(n - 10, 3) + b' ===='
+    elif wrap == 'trace' and n >= 2:
+        body = b'+ ' + fillb(n - 2, 3)
+    if kw and wrap != 'marker' and n >= len(kw) + (2 if wrap == 'trace' else 0):
+        at = {'start': 2 if wrap == 'trace' else 0, 'end': n - len(kw), 'mid': (n - len(kw)) // 2}[pos]
+        body = body[:at] + kw + body[at + len(kw):]
+    if p.get('nul') is not None and n:
+        z = p['nul'] % n
+        body = body[:z] + b'\x00' + body[z + 1:]
+    eol = b'\r\n' if p.get('crlf') else b'\n'
+    ls = ([b'+ leading trace'] if p.get('lead') else []) + [b'==== t1 ====', b'before'] + [body] + [b'after', b'==== t2 ====', b'x SKIPPED']
+    if p.get('only'):
+        ls = [body]
+    return eol.join(ls) + (eol if p.get('nl', True) else b'')
+
+
+def bl_offset(p):
+    """a token (keyword, marker line, trace prefix) placed so that it STRADDLES / ENDS exactly at / STARTS exactly at byte
+    `off` of the file; the bytes before it are one long line, or lines of 64 bytes - of 1 KiB from 32 KiB on: the lines before
+    the token form ONE block, and the model's cost is lines x bytes (1024 lines of 64 bytes: 1.2 s per question)"""
+    off, tok, where = p['off'], p.get('tok', 'FAILED').encode(), p.get('where', 'straddle')
+    linestart = tok.startswith(b'===') or tok.startswith(b'+') or bool(p.get('linestart'))
+    start = {'straddle': off - max(1, len(tok) // 2), 'ends': off - len(tok), 'starts': off}[where]
+    start = max(0, start)
+    if p.get('oneline') and not linestart:
+        pre = b'==== t0 ====\n' + fillb(start - 13, 11) if start >= 13 else fillb(start, 11)
+    else:
+        pre = lines_upto(start, linestart, 64 if off <= 16384 else 1024)
+        if start >= 64 + 13:
+            pre = b'==== t0 ====\n' + pre[13:]          # same length: the block opens with a marker
+    assert len(pre) == start, (len(pre), start)
+    if tok.startswith(b'==='):
+        post = b'\nbody of the block\nx FAILED\nlater\n'
+    elif tok.startswith(b'+'):
+        post = b' traced\nlast\ny UNEXPECTED_PASS\n'
+    else:
+        post = p.get('post', ' tail\nnext line\n').encode()
+    return pre + tok + post
+
+
+def bl_count(p):
+    n, what, kw = p['n'], p['what'], p.get('kw', 'FAILED').encode()
+    eol = b'\r\n' if p.get('crlf') else b'\n'
+    if what == 'blocks':            # n extracted blocks
+        ls = []
+        for i in range(n):
+            ls += [b'==== t%d ====' % i, b'body %d' % i, b'x ' + kw]
+        ls += [b'==== last ====', b'ok']
+    elif what == 'lines_in_block':  # one block of n lines before the hit (scratch block grows)
+        ls = [b'==== t ===='] + [b'line %d' % i for i in range(n)] + [b'x ' + kw, b'after']
+    elif what == 'markers':         # n consecutive marker lines (each resets the block), then a hit
+        ls = [(b'==== m%d ====' % i) if i % 3 else (b'===> dir%d' % i) for i in range(n)] + [b'body', b'x ' + kw]
+    elif what == 'hits':            # n hits without a marker between them
+        ls = [b'==== t ===='] + [b't%d %s' % (i, kw) for i in range(n)]
+    elif what == 'trace_lead':      # leading trace block of n lines (a keyword inside it does not count)
+        ls = [b'+ step %d %s' % (i, kw) for i in range(n)] + [b'==== t ====', b'x ' + kw, b'+ not leading']
+    elif what == 'trace_trail':     # trailing trace block of n lines
+        ls = [b'+ lead', b'==== t ====', b'x ' + kw, b'kept'] + [b'+ trail %d' % i for i in range(n)]
+    elif what == 'trace_mid':       # n trace lines in the middle: not leading, not trailing
+        ls = [b'==== t ====', b'first'] + [b'+ mid %d' % i for i in range(n)] + [b'x ' + kw, b'+ trail']
+    elif what == 'blank_trail':     # n empty lines after the last hit
+        ls = [b'==== t ====', b'x ' + kw] + [b''] * n
+    elif what == 'blank_lead':
+        ls = [b''] * n + [b'+ not leading any more', b'==== t ====', b'x ' + kw]
+    elif what == 'blank_in_block':
+        ls = [b'==== t ===='] + [b''] * n + [b'x ' + kw]
+    else:
+        raise ValueError(what)
+    return eol.join(ls) + (eol if ls and p.get('nl', True) else b'')
+
+
+def bl_shape(p):
+    w = p['which']
+    return {
+        'empty': b'', 'one_newline': b'\n', 'one_byte': b'x', 'one_plus': b'+',
+        'only_markers': b'==== a ====\n===> b\n==== c ====\n', 'only_trace': b'+ a FAILED\n+ b\n+\n', 'only_blank': b'\n\n\n',
+        'crlf': b'+ trace\r\n==== t1 ====\r\nok\r\nx FAILED\r\n===> sub\r\ny SKIPPED\r\n\r\n',
+        'crlf_no_final': b'==== t1 ====\r\nx FAILED\r\nlast UNEXPECTED_PASS\r',
+        'nul_before_kw': b'==== t ====\nx \x00 FAILED\nend\n', 'nul_after_kw': b'==== t ====\nx FAILED \x00 tail ====\nend\n',
+        'nul_in_marker': b'==== t \x00====\nbody\n==== u ====\x00junk\nx FAILED\n', 'nul_first': b'\x00+ x\n+ trace?\nx FAILED\n',
+        'kw_file_start': b'FAILED at the very start\nmore\n', 'kw_file_end': b'==== t ====\nbody\nends in UNEXPECTED_PASS',
+        'kw_whole_file': b'SKIPPED', 'kw_whole_line': b'==== t ====\nEXPECTED_FAIL\n==== u ====\nDISABLED\n',
+        'kw_case': b'==== t ====\nx failed\ny Failed\nz FAILEd\nskipped Skipped\nunexpected_pass\nExpected_Fail\n',
+        'kw_affix': b'==== t ====\nXFAILED\n==== u ====\nFAILEDX\n==== v ====\nUNSKIPPEDLY\n==== w ====\nEXPECTED_FAILURE\n'
+                    b'==== x ====\nUNEXPECTED_PASSED\n==== y ====\nNOT_DISABLED_\n==== z ====\nEXPECTED_FAI UNEXPECTED_PAS FAILE SKIPPE DISABLE\n',
+        'kw_split_newline': b'==== t ====\nx FAIL\nED\ny SKIP\nPED\nEXPECTED_\nFAIL\n',
+        'kw_split_nul': b'==== t ====\nx FAIL\x00ED\ny UNEXPECTED\x00_PASS\n',
+        'kw_in_marker': b'==== FAILED ====\nbody\n===> SKIPPED\nmore\n==== t ====\nok\n',
+        'kw_in_leading_trace': b'+ echo FAILED\n+ echo UNEXPECTED_PASS\n==== t ====\nok\n',
+        'kw_in_later_trace': b'+ lead\n==== t ====\nok\n+ echo FAILED\n+ echo SKIPPED\n',
+        'marker_last_no_newline': b'==== t ====\nx FAILED\n==== u ====',
+        'hit_first_line': b'x SKIPPED\n==== t ====\ny FAILED\n',
+        'xfail_failed_overlap': b'==== t ====\nEXPECTED_FAILED here\n==== u ====\nUNEXPECTED_PASS and EXPECTED_FAIL\n',
+    }[w]
+
+
+def bl_pair(p):
+    """two outcome keywords of different classes on one line, in this order"""
+    a, b = p['a'].encode(), p['b'].encode()
+    return b'==== t1 ====\nfirst\n' + p.get('pre', '2 tests: 1 ').encode() + a + p.get('sep', ', 1 ').encode() + b + b'\nlast\n==== t2 ====\nok\n'
+
+
+LOG_BUILDERS = {'linelen': bl_linelen, 'offset': bl_offset, 'count': bl_count, 'shape': bl_shape, 'pair': bl_pair}
+COUNT_WHATS = ['blocks', 'lines_in_block', 'markers', 'hits', 'trace_lead', 'trace_trail', 'trace_mid', 'blank_trail', 'blank_lead', 'blank_in_block']
+OFF_TOKENS = ['FAILED', 'SKIPPED', 'DISABLED', 'EXPECTED_FAIL', 'UNEXPECTED_PASS', '==== t9 ====', '===> sub/dir', '+ cd /usr/src']
+
+
+def gen_boundary_params(rng, small=False):
+    """small: for the step lane (every case is a bash run of step_exec): nothing above 16 KiB"""
+    kind = rng.choice(['linelen', 'linelen', 'offset', 'offset', 'count', 'count', 'shape', 'pair'])
+    kws = [k.decode() for k, _ in KWCLASS]
+    if kind == 'linelen':
+        p = {'n': rng.choice(SZ_LINE[:17] if small else SZ_LINE), 'kw': rng.choice(kws + ['']), 'pos': rng.choice(['start', 'mid', 'end']),
+             'wrap': rng.choice(['plain', 'plain', 'plain', 'marker', 'trace']), 'nl': rng.random() < 0.7, 'crlf': rng.random() < 0.15,
+             'lead': rng.random() < 0.3, 'only': rng.random() < 0.2}
+        if rng.random() < 0.2:
+            p['nul'] = rng.choice([0, 1, 255, 1023, 4095, -1, rng.randrange(1 << 16)])
+    elif kind == 'offset':
+        p = {'off': rng.choice(SZ_OFF[:5] if small else SZ_OFF), 'tok': rng.choice(OFF_TOKENS), 'where': rng.choice(['straddle', 'straddle', 'ends', 'starts']),
+             'oneline': rng.random() < 0.4, 'linestart': rng.random() < 0.2}
+        if rng.random() < 0.3:
+            p['post'] = rng.choice(['', '\n', ' x', '\r\n'])
+    elif kind == 'count':
+        p = {'n': rng.choice(COUNTS), 'what': rng.choice(COUNT_WHATS), 'kw': rng.choice(kws), 'nl': rng.random() < 0.75, 'crlf': rng.random() < 0.1}
+    elif kind == 'shape':
+        p = {'which': rng.choice(SHAPES)}
+    else:
+        a, b = rng.choice(KWPAIRS)
+        p = {'a': a.decode(), 'b': b.decode(), 'sep': rng.choice([', 1 ', ' ', '', ' earlier, now ', '\x00', '\t']), 'pre': rng.choice(['', '2 tests: 1 ', '+', ' '])}
+    return kind, p
+
+
+def gen_boundary_log(rng, small=False):
+    kind, p = gen_boundary_params(rng, small)
+    return LOG_BUILDERS[kind](p)
+
+
+def log_classes(data):
+    """the boundary classes a log belongs to, decided from its bytes (the same for generated, stored and shrunk cases)"""
+    cls = set()
+    if data == b'':
+        return {'empty log'}
+    lines = data.split(b'\n')
+    if lines[-1] == b'':
+        lines.pop()
+    else:
+        cls.add('no final newline')
+    n = len(lines)
+    if n >= 15 and band(n):
+        cls.add('number of lines ' + band(n))
+    m = max(len(l) for l in lines)
+    if m >= 254 and band(m):
+        cls.add('longest line ' + band(m))
+    elif m > 65537:
+        cls.add('longest line > 64 KiB')
+    if n >= 2 and all(l.endswith(b'\r') for l in lines[:-1]) and (lines[-1].endswith(b'\r') or 'no final newline' in cls):
+        cls.add('CRLF line ends')
+    if b'\x00' in data:
+        cls.add('NUL byte')
+    for blk in (8192, 4096, 1024):
+        if len(data) >= 254 and len(data) % blk == 0:
+            cls.add('file size a multiple of %d' % blk)
+            break
+    # tokens against the block offsets of the file
+    toks = [k for k, _ in KWCLASS]
+    for kw in toks:
+        i = data.find(kw)
+        while i >= 0:
+            e = i + len(kw)
+            for blk, name in ((4096, '4 KiB'), (1024, '1 KiB')):
+                if i // blk != (e - 1) // blk:
+                    cls.add('keyword straddles a multiple of %s in the file' % name)
+                    break
+            if e % 4096 == 0:
+                cls.add('keyword ends exactly at a multiple of 4 KiB')
+            if i and i % 4096 == 0:
+                cls.add('keyword starts exactly at a multiple of 4 KiB')
+            if i == 0:
+                cls.add('keyword is the first bytes of the file')
+            if e == len(data):
+                cls.add('keyword is the last bytes of the file')
+            i = data.find(kw, i + 1)
+    off = 0
+    lead = None
+    run = best = 0
+    for j, l in enumerate(lines):
+        c = l.split(b'\x00')[0]
+        if lead is None and not c.startswith(b'+'):
+            lead = j
+        if c.startswith(b'====') or c.startswith(b'===>'):
+            run += 1
+            best = max(best, run)
+            e = off + min(len(c), 5)
+            if off and off // 4096 != (e - 1) // 4096:
+                cls.add('marker prefix straddles a multiple of 4 KiB in the file')
+            if off and off % 4096 == 0:
+                cls.add('marker starts exactly at a multiple of 4 KiB')
+        else:
+            run = 0
+        present = sorted({k for kw, k in KWCLASS if kw in c})
+        if len(present) >= 2:
+            cls.add('two keyword classes on one line')
+        for kw in toks:
+            if c.startswith(kw):
+                cls.add('keyword at the start of a line')
+            if c.endswith(kw) and c == l.rstrip(b'\r'):
+                cls.add('keyword at the end of a line')
+        off += len(l) + 1
+    if lead is None:
+        lead = n
+        cls.add('only trace lines')
+    if lead and band(lead) and lead >= 15:
+        cls.add('leading trace block of %s lines' % band(lead))
+    if best >= 15 and band(best):
+        cls.add('%s consecutive marker lines' % band(best))
+    t = 0
+    while t < n and lines[n - 1 - t] in (b'', b'\r'):
+        t += 1
+    cls.add('trailing blank lines: %s' % (t if t <= 2 else band(t) or 'many'))
+    return cls
+
+
+def count_classes(res, lane, blobs, c=None):
+    seen = set()
+    for b in blobs:
+        seen |= log_classes(b)
+    for k in sorted(seen):
+        res.count('class: ' + k)
+    if c is not None and c.get('boundary'):
+        res.count('boundary cases, %s lane: %s' % (lane, c['boundary']))
+    return seen
+
+
+def ordered_pairs(blob):
+    """ordered pairs of outcome keywords of different classes found on one line (first occurrence decides the order)"""
+    out = set()
+    for l in blob.split(b'\n'):
+        c = l.split(b'\x00')[0]
+        pos = sorted((c.find(kw), kw, k) for kw, k in KWCLASS if kw in c)
+        for i in range(len(pos)):
+            for j in range(i + 1, len(pos)):
+                if pos[i][2] != pos[j][2]:
+                    out.add((pos[i][1], pos[j][1]))
+    return out
+
+
+def expand_descriptor(d, idx=0):
+    """corpus descriptor -> cases.  cmd lane: the selection `flags` (default: all four) printing and, for every second
+    descriptor, not printing; lib lane: peek, parse (NEWLINE / pre-filled buffer alternating) and trim; "step": true adds a
+    regress step whose runner exits 0.  {"boundary": "pairs_all"} expands to every ordered pair of keywords of different
+    classes under every one of the 15 selections (cmd lane, printing) and in peek mode."""
+    if d['boundary'] == 'pairs_all':
+        out = []
+        for k, (a, b) in enumerate(KWPAIRS):
+            log = bl_pair({'a': a.decode(), 'b': b.decode(), 'sep': [', 1 ', ' ', ' earlier, now '][k % 3]}).hex()
+            for fl in range(1, 16):
+                out.append({'flags': fl, 'doprint': True, 'files': [log], 'boundary': 'pair'})
+                out.append({'lane': 'lib', 'op': 'peek', 'flags': fl, 'file': log, 'boundary': 'pair'})
+        return out
+    if d['boundary'] == 'nfiles':
+        p = d['params']
+        hit, miss = b'==== t ====\nx FAILED\n'.hex(), b'==== t ====\nok\n'.hex()
+        pat = {'all': lambda i, n: hit, 'none': lambda i, n: miss, 'alt': lambda i, n: hit if i % 2 == 0 else miss,
+               'first': lambda i, n: hit if i == 0 else miss, 'last': lambda i, n: hit if i == n - 1 else miss,
+               'empty_between': lambda i, n: hit if i in (0, n - 1) else '', 'missing_last': lambda i, n: None if i == n - 1 else hit}[p.get('pattern', 'alt')]
+        return [{'flags': d.get('flags', 1), 'doprint': p.get('doprint', True), 'files': [pat(i, p['n']) for i in range(p['n'])], 'boundary': 'nfiles'}]
+    if d['boundary'] not in LOG_BUILDERS:
+        raise RuntimeError('unknown boundary class %r' % d['boundary'])
+    log = LOG_BUILDERS[d['boundary']](d['params']).hex()
+    fl = d.get('flags', 15)
+    tag = {'boundary': d['boundary'], 'params': d['params']}
+    out = [dict({'flags': fl, 'doprint': True, 'files': [log]}, **tag)]
+    if idx % 2:
+        out.append(dict({'flags': fl, 'doprint': False, 'files': [log, log]}, **tag))
+    out.append(dict({'lane': 'lib', 'op': 'peek', 'flags': fl, 'file': log}, **tag))
+    out.append(dict({'lane': 'lib', 'op': 'parse', 'flags': fl, 'file': log, 'newline': bool(idx % 2), 'prefill': [b'', b'earlier block\n', b'x'][idx % 3].hex()}, **tag))
+    out.append(dict({'lane': 'lib', 'op': 'trim', 'flags': fl, 'file': log, 'prefill': [b'', b'old'][idx % 2].hex()}, **tag))
+    if d.get('step'):
+        out.append(dict({'lane': 'step', 'mode': 'robsd-regress', 'rc': 0, 'log': log, 'late': False}, **tag))
+    return out
+
+
+def run_driver(path, lines, timeout=900, workers=8):
     """common.run_driver with an unlimited stack: the extracted list functions are not tail recursive and a
-    line of 1 MiB overflows the default 8 MiB stack"""
-    r = subprocess.run(['bash', '-c', 'ulimit -s unlimited 2>/dev/null || ulimit -s hard; exec "$0"', path],
-                       input='\n'.join(lines) + '\n', stdout=subprocess.PIPE, stderr=subprocess.PIPE, text=True, timeout=timeout)
-    out = r.stdout.split('\n')
-    if out and out[-1] == '':
-        out.pop()
-    if len(out) != len(lines):
-        raise RuntimeError('driver %s: %d answers for %d questions (rc=%s, stderr=%s)' % (path, len(out), len(lines), r.returncode, r.stderr[-500:]))
+    line of 1 MiB overflows the default 8 MiB stack.  The questions are independent: they are dealt out to `workers`
+    driver processes and the answers put back in order."""
+    def one(ls):
+        if not ls:
+            return []
+        r = subprocess.run(['bash', '-c', 'ulimit -s unlimited 2>/dev/null || ulimit -s hard; exec "$0"', path],
+                           input='\n'.join(ls) + '\n', stdout=subprocess.PIPE, stderr=subprocess.PIPE, text=True, timeout=timeout)
+        out = r.stdout.split('\n')
+        if out and out[-1] == '':
+            out.pop()
+        if len(out) != len(ls):
+            raise RuntimeError('driver %s: %d answers for %d questions (rc=%s, stderr=%s)' % (path, len(out), len(ls), r.returncode, r.stderr[-500:]))
+        return out
+    if len(lines) < 4 * workers:
+        return one(lines)
+    with ThreadPoolExecutor(workers) as ex:
+        parts = list(ex.map(one, [lines[i::workers] for i in range(workers)]))
+    out = [None] * len(lines)
+    for i, part in enumerate(parts):
+        out[i::workers] = part
     return out
 
 
@@ -267,9 +632,16 @@ def load_corpus():
         raise RuntimeError('corpus/C13 is missing')
     cases = []
     for p in sorted(glob.glob(os.path.join(d, '*.json'))):
-        c = json.load(open(p))
-        c.setdefault('corpus', os.path.basename(p))
-        cases.append(c)
+        j = json.load(open(p))
+        for idx, c in enumerate(j if isinstance(j, list) else [j]):
+            if 'boundary' in c and 'files' not in c and 'file' not in c and 'log' not in c:
+                # a descriptor of a boundary class: expanded into cases of the lanes (deterministic)
+                for x in expand_descriptor(c, idx):
+                    x['corpus'] = os.path.basename(p)
+                    cases.append(x)
+                continue
+            c.setdefault('corpus', os.path.basename(p))
+            cases.append(c)
     if not cases:
         raise RuntimeError('corpus/C13 is empty')
     kf = common.load_known()
@@ -295,12 +667,20 @@ def stderr_class(err):
     return 'usage' if err.startswith(b'usage:') else 'other'
 
 
+def get_drv(ctx):
+    """the extracted model is built once per run (build_driver regenerates coq/gen and re-extracts under the Coq lock)"""
+    if not getattr(ctx, '_c13_drv', None):
+        ctx._c13_drv = ctx.build_driver('rl')
+    return ctx._c13_drv
+
+
 def get_impl(ctx):
     if not getattr(ctx, '_c13_impl', None):
         ctx._c13_impl = ctx.build_impl()
     return ctx._c13_impl
 
 
+PAIR_COMBOS = set()      # ((first keyword, second keyword), selection) evaluated in the cmd lane of this run
 USAGE_OUTSIDE = 'outside: empty selection or no file (usage path)'
 
 
@@ -314,7 +694,7 @@ def is_usage(c):
 def evaluate(ctx, cases, res):
     """cmd lane"""
     impl = get_impl(ctx)
-    drv = ctx.build_driver('rl')
+    drv = get_drv(ctx)
     work = ctx.mkscratch('c13work')
     with ThreadPoolExecutor(16) as ex:
         obs = list(ex.map(lambda ic: run_impl(impl, work, ic[0], ic[1]), enumerate(cases)))
@@ -342,6 +722,12 @@ def evaluate(ctx, cases, res):
         res.count('exit=%d' % rc)
         res.count('files=%d' % len(c['files']))
         blobs = [bytes.fromhex(f) for f in c['files'] if f]
+        count_classes(res, 'cmd', blobs[:4], c)
+        if band(len(c['files'])) and len(c['files']) >= 15:
+            res.count('class: number of files ' + band(len(c['files'])))
+        for b in blobs[:4]:
+            for a_b in ordered_pairs(b):
+                PAIR_COMBOS.add((a_b, c['flags']))
         if any(b.count(b'\n') > 1 and b.count(b'\r\n') == b.count(b'\n') for b in blobs):
             res.count('cmd: CRLF log')
         if any(b'\x00' in b for b in blobs):
@@ -377,7 +763,7 @@ def header_bits(impl):
 def evaluate_lib(ctx, cases, res):
     """lib lane: peek / parse / trim in process"""
     impl = get_impl(ctx)
-    drv = ctx.build_driver('rl')
+    drv = get_drv(ctx)
     work = ctx.mkscratch('c13lib')
     exe = os.path.join(work, 'rl_harness')
     objs = [os.path.join(impl, o) for o in ('regress-log.o', 'buffer.o', 'consistency.o')]
@@ -422,6 +808,10 @@ def evaluate_lib(ctx, cases, res):
     for i, (c, o, m) in enumerate(zip(cases, outs, ans)):
         res.evaluations += 1
         res.count('lib: %s%s' % (c['op'], ' NEWLINE' if c.get('newline') else ''))
+        if c['file']:
+            for k in count_classes(res, 'lib', [bytes.fromhex(c['file'])], c):
+                if c['op'] == 'trim' and (k.startswith('trailing blank') or k.startswith('leading trace')):
+                    res.count('lib: trim, ' + k)
         if c['op'] == 'trim' and c['file'] is not None:
             t, mid = trailing_trace_shape(bytes.fromhex(c['file']))
             if t >= 2:
@@ -489,7 +879,7 @@ def evaluate_step(ctx, cases, res):
     a non-zero status, otherwise the runner's status is returned; 'failing' is decided by RLOracles.failing_lineb on the
     lines of the log (C13_oracles_exact: it is the Prop failing_line, and the oracle accepts the model)."""
     impl = get_impl(ctx)
-    drv = ctx.build_driver('rl')
+    drv = get_drv(ctx)
     work = ctx.mkscratch('c13step')
     obs, err = run_step(impl, work, cases)
     qs = []
@@ -506,6 +896,8 @@ def evaluate_step(ctx, cases, res):
         res.evaluations += 1
         res.count('step: mode=%s%s%s' % (c['mode'], ' failing-line' if failing else '', ' late-tee' if c.get('late') else ''))
         res.extra['step_lane_cases'] = res.extra.get('step_lane_cases', 0) + 1
+        if c['log']:
+            count_classes(res, 'step', [bytes.fromhex(c['log'])], c)
         if c.get('late'):
             res.extra['late_tee_cases'] = res.extra.get('late_tee_cases', 0) + 1
             if failing and regress and c['rc'] == 0:
@@ -570,6 +962,13 @@ def step_lane_guards(res):
         res.tie_errors.append('lib lane: no trim case with a trailing trace run of two lines / with two separate trace runs')
     if not any(k.startswith('lib: peek') for k in d) or not any(k.startswith('lib: parse') for k in d):
         res.tie_errors.append('lib lane: zero peek or parse cases')
+    # every ordered pair of outcome keywords of different classes on one line under every one of the 15 selections
+    # (the disjunction of [selected]: seeded/C13); corpus/C13/b13_pairs.json enumerates them
+    want = {((a, b), fl) for a, b in KWPAIRS for fl in range(1, 16)}
+    x['keyword_pair_x_selection_combinations'] = '%d of %d' % (len(want & PAIR_COMBOS), len(want))
+    if want - PAIR_COMBOS:
+        res.tie_errors.append('cmd lane: %d of the %d (keyword pair, selection) combinations were not evaluated, e.g. %r'
+                              % (len(want - PAIR_COMBOS), len(want), sorted(want - PAIR_COMBOS)[0]))
 
 
 def run(ctx, n=None):
@@ -580,9 +979,15 @@ def run(ctx, n=None):
                 'path (empty selection / no file; outside the property, compared with the pinned usage()); the library entry points '
                 'peek/parse(+NEWLINE, pre-filled buffer)/trim in process (trim: trailing trace runs of 1-4 lines, two separate runs); util.sh step_exec '
                 'with a stand-in runner in regress and other modes, also with a late tee on generated logs that end in a failing line; '
+                'boundary size/shape classes (see "class: ..." in the distribution, decided from the bytes of every evaluated log): lines of 0-65537 bytes '
+                'with the keyword at the start / middle / very end, as marker and as trace line; a keyword / marker / trace prefix straddling, ending at or '
+                'starting at file offsets 1-64 KiB; 0-257 (1024 stored) blocks, lines per block, consecutive markers, hits, leading / trailing / inner trace '
+                'lines, leading / trailing / inner blank lines; 15-257 files; empty / one-byte / only-marker / only-trace logs, CRLF, NUL, keywords in other '
+                'case and as part of longer words, split by newline or NUL; every ordered pair of keywords of different classes under all 15 selections; '
                 'non-trivial = exit 0 (result > 0, failing regress step) and a marker-like line present; distinct by content hash')
     quick = n is None and ctx.tier != 'thorough'
     n = n or ctx.budget(1500, 60000)
+    PAIR_COMBOS.clear()
     cases = load_corpus()
     check_tools(res)
     # ---- the corpus first; within it the cases of known / repaired findings first (load_corpus sorts them so)
@@ -595,7 +1000,7 @@ def run(ctx, n=None):
     # ---- cmd
     ccases = huge_cases(ctx.rng, 30 if quick else 300) + [gen_case(ctx.rng) for _ in range(n)]
     res.samples += ccases[2:3]
-    res.assumptions = ['bytes 0..255 only; files up to ~25 lines plus single lines up to 1 MiB in the correspondence (the theorems have no bound)',
+    res.assumptions = ['bytes 0..255 only; random files up to ~25 lines, boundary classes up to 1025 lines / 1024 blocks / 64 KiB lines / 257 files, plus single lines up to 1 MiB in the correspondence (the extracted model appends by copying: counts above ~1000 per block are not compared; the theorems have no bound)',
                        'step lane: "the shell waits for the last command of the pipeline" is exercised under bash with the system tee and a late one, '
                        'not proved; the log file is compared with the runner\'s output after every step_exec']
     chunk = 20000
